@@ -63,6 +63,19 @@ Definition has_concat := fix hc (r : re) : bool :=
   | _ => false
   end.
 
+(* a sign literal below a star/plus, or a literal of two or more characters that contains a sign:
+   such an element can be recognised as "zero" ([(0,0)]) and is then stripped as zero padding although it
+   matches strings that carry a sign.  Never the case inside the documented shape (signed_zero_outside_shape). *)
+Fixpoint signed_zero (r : re) : bool :=
+  match r with
+  | RStr w => match w with _ :: _ :: _ => has_sign r | _ => false end
+  | RStar c | RPlus c => has_sign c || signed_zero c
+  | ROpt c | RComp c => signed_zero c
+  | RUnion a b | RConcat a b | RInter a b => signed_zero a || signed_zero b
+  | _ => false
+  end.
+Definition K_signed_zero (r : re) : bool := signed_zero r.
+
 Definition K_full_sign (r : re) : bool := has_full r.
 Definition K_inner_sign (r : re) : bool := inner_sign r.
 (* the `value_or(lambda: False)` quirk changes the result *)
